@@ -351,7 +351,8 @@ Section Commit.
     pose proof (i_ae_commit V n H3 t ldr prev pt ents lc) as Hold.
     inv_step Hstep; msg_cases Hin; auto.
     rewrite (i_leader_log n H2 ldr) by assumption.
-    eapply cprefix_le; [apply (i_hcommit V n H3 ldr)|]. apply (i_commit_bounds V n H3 ldr).
+    eapply cprefix_le; [apply (i_hcommit V n H3 ldr)|].
+    pose proof (i_commit_bounds V n H3 ldr). lia.
   Qed.
 
   Lemma I_hb_step n l n' : inv1 n -> inv2 n -> inv3 n -> step n l n' -> I_hb V n'.
